@@ -67,9 +67,13 @@ impl CaoLangAllocator {
     /// `alloc` is not thread safe. It is on the caller to ensure that only a single thread uses
     /// the allocator at a time
     pub unsafe fn alloc(&self, l: Layout) -> Result<NonNull<u8>, AllocError> {
+        #[cfg(feature = "verif-hooks")]
+        let verif_seq = crate::verif::alloc_request();
         let s = l.size() + l.align();
         let allocated = s + self.allocated.fetch_add(s, Ordering::Relaxed);
         if allocated > self.limit.load(Ordering::Relaxed) {
+            #[cfg(feature = "verif-hooks")]
+            crate::verif::alloc_failed(self, verif_seq, l);
             return Err(AllocError::OutOfMemory);
         }
         if allocated > self.next_gc.load(Ordering::Relaxed) {
@@ -82,7 +86,13 @@ impl CaoLangAllocator {
                 self.allocated.load(Ordering::Relaxed)
             );
         }
+        #[cfg(feature = "verif-hooks")]
+        if !self.runtime.is_null() && crate::verif::force_gc_now(verif_seq) {
+            (*self.runtime).gc();
+        }
         let ptr = alloc(l);
+        #[cfg(feature = "verif-hooks")]
+        crate::verif::alloc_done(self, verif_seq, l, ptr);
         Ok(NonNull::new(ptr).unwrap())
     }
 
@@ -92,6 +102,8 @@ impl CaoLangAllocator {
     pub unsafe fn dealloc(&self, p: NonNull<u8>, l: Layout) {
         let s = l.size() + l.align();
         self.allocated.fetch_sub(s, Ordering::Relaxed);
+        #[cfg(feature = "verif-hooks")]
+        crate::verif::dealloc_done(self, l, p.as_ptr());
         dealloc(p.as_ptr(), l);
     }
 }
